@@ -149,6 +149,18 @@ class GpOptimiser:
         good_type = isinstance(new_y_err, (ndarray, type(None)))
         new_y_err = new_y_err if good_type else array(new_y_err)
 
+        # (checked before anything is stored: a rejected call must not leave the
+        # new point in the data without its error)
+        if self.y_err is not None and new_y_err is None:
+            raise ValueError(
+                """\n
+                \r[ GpOptimiser error ]
+                \r>> 'new_y_err' argument of the 'add_evaluation' method must be
+                \r>> specified if the 'y_err' argument was specified when the
+                \r>> instance of GpOptimiser was initialised.
+                """
+            )
+
         # store the acquisition function value of the new point
         self.acquisition_max_history.append(self.acquisition(new_x))
         self.convergence_metric_history.append(
@@ -161,17 +173,7 @@ class GpOptimiser:
         self.y = append(self.y, new_y)
 
         if self.y_err is not None:
-            if new_y_err is not None:
-                self.y_err = append(self.y_err, new_y_err)
-            else:
-                raise ValueError(
-                    """\n
-                    \r[ GpOptimiser error ]
-                    \r>> 'new_y_err' argument of the 'add_evaluation' method must be
-                    \r>> specified if the 'y_err' argument was specified when the
-                    \r>> instance of GpOptimiser was initialised.
-                    """
-                )
+            self.y_err = append(self.y_err, new_y_err)
 
         # re-train the GP
         self.gp = GpRegressor(
